@@ -100,10 +100,10 @@ def _safe_run(case):
     try:
         with time_limit(getattr(_PROP, "CASE_TIME_LIMIT", 300)):
             r = _PROP.run_case(case, _TIER)
-    except CaseTimeout:
+    except CaseTimeout as e:
         r = {"inconclusive": "case_time_limit"}
         if hasattr(_PROP, "on_timeout"):
-            r = _PROP.on_timeout(case, _TIER)
+            r = _PROP.on_timeout(case, _TIER, e)
     except Exception:
         r = {"harness_error": traceback.format_exc()[-3000:], "case": case}
     r.setdefault("dt", time.time() - t)
